@@ -27,6 +27,8 @@ type C13Q struct {
 	Selector  bool   `json:"selector,omitempty"` // SQL is a path selector for ExecReader
 	Wrapped   bool   `json:"wrapped,omitempty"`
 	Unordered bool   `json:"unordered,omitempty"`
+	PG        bool   `json:"pg,omitempty"`     // PostgresEscapingDialect on
+	Arrays    bool   `json:"arrays,omitempty"` // IdiomaticArrays on
 	// Cells: cells of sinkCells that the query's vf_sink calls must have set by the time Exec returns
 	Cells []int `json:"cells,omitempty"`
 }
@@ -197,6 +199,11 @@ func genC13(t *rapid.T) any {
 			if suffix != "" {
 				q.SQL = renameCols(q.SQL, names, suffix)
 			}
+			if !q.Selector && !strings.ContainsAny(q.SQL, "\"[]") && rapid.IntRange(0, 2).Draw(t, "dialect") == 0 {
+				// the text-rewriting options run inside New for every query built with them (the text uses neither spelling)
+				ob := rapid.IntRange(1, 3).Draw(t, "dialectbits")
+				q.PG, q.Arrays = ob&1 != 0, ob&2 != 0
+			}
 			if b.Shared {
 				q.Doc = 0
 			} else {
@@ -212,6 +219,11 @@ func genC13(t *rapid.T) any {
 				q.Doc = len(b.Docs) - 1
 			}
 			list = append(list, q)
+			if rapid.IntRange(0, 7).Draw(t, "poison") == 0 {
+				// a text the rewriters reject, built right next to the others: its failure must stay its own
+				list = append(list, C13Q{Doc: q.Doc, PG: true, Arrays: true, SQL: rapid.SampledFrom([]string{"SELECT * FROM \"t\" WHERE \"t\".\"a\" = 'abc\\", "SELECT \"k\\", "SELECT [1, [2 FROM \"t\"", "SELECT 1] FROM t",
+					"SELECT 'abc\\", "SELECT \"a FROM t", "SELECT ']' , [ FROM \"t\""}).Draw(t, "poisontext")})
+			}
 		}
 		b.G = append(b.G, list)
 	}
@@ -256,7 +268,7 @@ func c13Exec(q *C13Q, doc map[string]any) c13Outcome {
 	for _, c := range q.Cells {
 		sinkCells[c] = 0
 	}
-	o := Run(doc, q.SQL, Opts{Wrapped: q.Wrapped}, genql.UnReportedErrors(func(error) {}))
+	o := Run(doc, q.SQL, Opts{Wrapped: q.Wrapped, PG: q.PG, Arrays: q.Arrays}, genql.UnReportedErrors(func(error) {}))
 	switch {
 	case o.Panic != "":
 		return c13Outcome{Status: "panic", Detail: o.Panic}
